@@ -253,7 +253,7 @@ func registerRound2() {
 		Quick: 2, Thor: 3,
 	})
 	regSpec(&Spec{
-		Name: "unbind-after-failed-response-write", Props: []string{"C10", "C08", "C12"},
+		Name: "unbind-after-failed-response-write", Props: []string{"C10", "C08", "C12", "C05"},
 		Srv:   SrvOpts{WriteTimeout: secs(5)},
 		Conns: []ConnSpec{{IdleBefore: 10, Ops: []string{"bind", "unbind", "search"}, Segs: []int{1, 2}, H: map[int]*HSpec{1: {YieldsAfter: 1}}, Read: "all"}},
 		Quick: 2, Thor: 3,
